@@ -417,6 +417,32 @@ func (s *sim) runRoundtrip() {
 	}
 	s.ctx.Count("ev.roundtrip_ok", 1)
 	s.ctx.Count(fmt.Sprintf("ev.rt_lenclass_%d", s.class), 1)
+	// a shrunk snapshot is the one whose stream is an empty session table (8
+	// bytes, then a zero count) and nothing else - and only that one
+	if s.cfg.Version == rsm.V2 && len(payload) >= 16 {
+		var shrunk bool
+		var serr error
+		panicked := ""
+		func() {
+			defer func() {
+				if r := recover(); r != nil {
+					panicked = fmt.Sprintf("%v", r)
+				}
+			}()
+			shrunk, serr = rsm.IsShrunkSnapshotFile(filePath, s.fs)
+		}()
+		// (a file that was not produced by shrinking but happens to hold exactly
+		// an empty session table may be classified either way: there is nothing
+		// to recover from it; compressed files are examined as they are stored)
+		mustNot := len(payload) > 16 || !bytes.Equal(payload[8:16], make([]byte, 8))
+		s.ctx.Count("ev.shrunk_classified", 1)
+		if len(payload) > 16 && len(payload) < 24 && bytes.Equal(payload[8:16], make([]byte, 8)) {
+			s.ctx.Count("probe.empty_sessions_plus_1_to_7_bytes", 1)
+		}
+		if panicked != "" || (serr != nil && s.cfg.CT == pb.NoCompression) || (shrunk && mustNot) {
+			s.ctx.Violate(Prop, "shrunk-misclassified", "%s: IsShrunkSnapshotFile on a file with %d payload bytes (bytes 8..16 zero: %t): shrunk=%t err=%v panic=%s", s.cfg, len(payload), bytes.Equal(payload[8:16], make([]byte, 8)), shrunk, serr, panicked)
+		}
+	}
 	// shrink: what snapshotter.Shrink does to the snapshot of an on disk state machine
 	if s.src.Chance(1, 2) {
 		s.shrink(payload)
